@@ -247,7 +247,30 @@ def run(ctx):
                                      "in the implementation trace"})
         if not ok or ctx.failures:
             search(ctx, exe)
+    hazard_layer(ctx)
     core.finish(ctx, extra_assumptions=ASSUME)
+
+
+HAZARD_THEOREMS = ["hp_safe", "hp_validated", "hp_binary_search_correct", "hp_scan_partition", "hp_comparator_obligation"]
+
+
+def hazard_layer(ctx):
+    """'including node retirement and reuse (ABA)': the queue is ABA-safe only if the hazard-pointer layer below it never
+    reclaims a protected node, for every address pattern.  C14's theorems and its correspondence (comparator differential
+    on boundary address pairs, far-apart node layouts, scans racing with registration) are obligations of C13 too."""
+    from vf.props import C14
+    core.coq_property(ctx, "Properties_C14.v", HAZARD_THEOREMS)
+    exe = C14.build(ctx)
+    if not exe:
+        return
+    dist = ctx.coverage.get("case_distribution")
+    nf = len(ctx.failures)
+    cases = C14.corpus(ctx) + C14.gen_cases(ctx, ctx.tier)
+    ctx.coverage["hazard_case_distribution"] = ctx.coverage.get("case_distribution")
+    ctx.coverage["case_distribution"] = dist
+    ok = core.correspond(ctx, "hazard", "hazard", exe, cases, C14.monitor)
+    if (not ok or len(ctx.failures) > nf) and not ctx.violations:
+        C14.search(ctx, exe)
 
 
 def search(ctx, exe):
@@ -277,6 +300,9 @@ def corpus(ctx):
 
 
 def replay(ctx, payload):
+    if payload.get("harness") == "hazard":
+        from vf.props import C14
+        return C14.replay(ctx, payload)
     exe = build(ctx)
     c = payload.get("case")
     if not exe or not c:
